@@ -10,7 +10,7 @@ package tls
 // C05: AlwaysPadToLen and its closure (same shape as BoringPaddingStyle, target length padToLen).
 
 //@ func AlwaysPadToLen$1
-//@   property C05
+//@   property C05 C07 C06
 //@   let T = *padToLen
 //@   requires cell: padToLen != nil
 //@   note padToLen is the closure cell of the captured variable (a *int in go/ssa); cells are created by `new` in AlwaysPadToLen and are never nil
@@ -23,7 +23,7 @@ package tls
 //@   ensures positive: ret1 ==> ret0 >= 1
 
 //@ func AlwaysPadToLen
-//@   property C05
+//@   property C05 C07 C06
 //@   modifies nothing
 //@   ensures ret != nil
 
